@@ -57,9 +57,11 @@ def default_discriminator_mapping(
 
 
 def rec_subclasses(cls: type) -> Iterable[type]:
+    # most specific classes first: serialization takes the first alternative the value is
+    # an instance of, and an instance of a sub-subclass is an instance of its parent too
     for sub_cls in cls.__subclasses__():
-        yield sub_cls
         yield from rec_subclasses(sub_cls)
+        yield sub_cls
 
 
 @dataclass(frozen=True, unsafe_hash=False)
